@@ -56,11 +56,11 @@ def pairs (T : IntTy) (f spec : Int → Int → Res Int) : Acc := Id.run do
       a := a.note (f x y) (spec x y) (fun _ => s!"{x} {y}")
   return a
 
-def shifts (T : IntTy) : Acc := Id.run do
+def shifts (named : Bool) (T : IntTy) : Acc := Id.run do
   let mut a : Acc := {}
   for v in boundary T do
     for n in [0:256] do
-      a := a.note (SafeLeftShift T v n) (exact T (v * 2 ^ n)) (fun _ => s!"{v} {n}")
+      a := a.note (Entry2.run SafeLeftShift named T v n) (exact T (v * 2 ^ n)) (fun _ => s!"{v} {n}")
   return a
 
 def mulDiv : Acc := Id.run do
@@ -74,14 +74,14 @@ def mulDiv : Acc := Id.run do
         a := a.note (Safe64MulDiv x y d) (exactMulDiv x y d) (fun _ => s!"{x} {y} {d}")
   return a
 
-/-- `search FN KIND`: the answer line of the driver -/
-def search (fn : String) (T : IntTy) : String :=
+/-- `search FN KIND`: the answer line of the driver (`named`: KIND is one of the defined types of the harness) -/
+def search (fn : String) (named : Bool) (T : IntTy) : String :=
   match fn with
-  | "add" => (pairs T (SafeAdd T) (fun x y => exact T (x + y))).render
-  | "sub" => (pairs T (SafeSub T) (fun x y => exact T (x - y))).render
-  | "mul" => (pairs T (SafeMul T) (fun x y => exact T (x * y))).render
-  | "div" => (pairs T (SafeDiv T) (exactDiv T)).render
-  | "shl" => (shifts T).render
+  | "add" => (pairs T (Entry2.run SafeAdd named T) (fun x y => exact T (x + y))).render
+  | "sub" => (pairs T (Entry2.run SafeSub named T) (fun x y => exact T (x - y))).render
+  | "mul" => (pairs T (Entry2.run SafeMul named T) (fun x y => exact T (x * y))).render
+  | "div" => (pairs T (Entry2.run SafeDiv named T) (exactDiv T)).render
+  | "shl" => (shifts named T).render
   | "mulu64" => (pairs IntTy.u64 SafeMulUint64 (fun x y => exact IntTy.u64 (x * y))).render
   | "muli64" => (pairs IntTy.i64 SafeMulInt64 (fun x y => exact IntTy.i64 (x * y))).render
   | "muldiv" => mulDiv.render
